@@ -299,7 +299,7 @@ def invalid_cases(ctx):
         ctx.case(case, nontrivial_key=('band', i, n) if want_spec == 'err' else None)
 
 
-def full_cases(ctx, count):
+def full_cases(ctx, count, seed=None):
     """Correspondence of the WHOLE function with `Model.C20.loadFull genPieces` (driver op `full`): random small images of
     every dimensionality with index-valued pixels and an integer CRPIX2, every band of n, valid and invalid band
     specifications, existing and missing planes, 5-D files, compressed files.  The implementation's own output is also
@@ -308,7 +308,9 @@ def full_cases(ctx, count):
     from astropy.io import fits
     from AegeanTools import fits_tools
     from AegeanTools.exceptions import AegeanError
-    rng = ctx.rng
+    import random
+    seed = ctx.seed if seed is None else seed
+    rng = random.Random(seed * 7919 + 11)       # own stream: a replay regenerates exactly these cases
     jobs = []
     for k in range(count):
         naxis = rng.choice([2, 2, 3, 3, 4, 4, 4, 5]) if k % 9 else 5
@@ -377,6 +379,7 @@ def full_cases(ctx, count):
     for jb, got, ref_plane, m_rows, m_cols, m_crpix2 in meta:
         case = {k: jb[k] for k in ('naxis', 'comp', 'n4', 'n3', 'rows', 'cols', 'crpix2', 'n', 'cube')}
         case['full'] = True
+        case['seed'] = seed
         sig_base = dict(site='load_image_band', what='full')
         # ---- the property, on the implementation's own output (valid bands of an existing plane)
         if ref_plane is not None:
@@ -441,6 +444,98 @@ def full_cases(ctx, count):
                  sample_every=41)
 
 
+def fullfile_cases(ctx, count, seed=None):
+    """File-level correspondence with `Model.C20.loadFullFile genPieces genFilePieces` (driver op `fullfile`): files of two
+    image HDUs of different dimensionality / size / CRPIX2 / BSCALE, either of them requested; the real output is judged
+    against the property directly (rows of the requested plane of the REQUESTED HDU in physical units) and compared with
+    the assembled model."""
+    from astropy.io import fits
+    from AegeanTools import fits_tools
+    import random
+    seed = ctx.seed if seed is None else seed
+    rng = random.Random(seed * 104729 + 13)     # own stream: a replay regenerates exactly these cases
+    lines, meta = [], []
+    for k in range(count):
+        descr, arrays = [], []
+        for h in range(2):
+            naxis = rng.choice([2, 3, 4])
+            n3 = rng.randint(1, 3) if naxis >= 3 else 1
+            n4 = rng.randint(1, 2) if naxis >= 4 else 1
+            rows, cols = rng.randint(1, 9), rng.randint(1, 4)
+            crpix2 = rng.choice([1, 4, -2, 30])
+            bs = rng.choice([0, 0, 2, 3])
+            arr = h * 1000000 + np.arange(n4 * n3 * rows * cols, dtype=np.float64).reshape(n4, n3, rows, cols)
+            descr.append((naxis, n4, n3, rows, cols, crpix2, bs))
+            arrays.append(arr)
+        hdu_index = rng.randint(0, 1)
+        naxis, n4, n3, rows, cols, crpix2, bs = descr[hdu_index]
+        cube = rng.randint(0, n3 - 1)
+        n = rng.randint(1, 5)
+        hl = []
+        for h, (d, arr) in enumerate(zip(descr, arrays)):
+            data = {2: arr[0, 0], 3: arr[0], 4: arr}[d[0]]
+            hd = (fits.PrimaryHDU if h == 0 else fits.ImageHDU)(data.copy())
+            for kk, v in HEADER.items():
+                hd.header[kk] = v
+            hd.header['CRPIX2'] = float(d[5])
+            if d[6]:
+                hd.header['BSCALE'] = float(d[6])
+            hl.append(hd)
+        _file_counter[0] += 1
+        path = os.path.join(ctx.tmpdir(), f'work{_file_counter[0] % 2}.fits')
+        fits.HDUList(hl).writeto(path, overwrite=True, output_verify='silentfix')
+        ref = arrays[hdu_index][0, cube if naxis >= 3 else 0] * (bs if bs else 1)
+        got = []
+        for i in range(n):
+            try:
+                d, h = fits_tools.load_image_band(path, band=(i, n), hdu_index=hdu_index, cube_index=cube)
+                got.append(('ok', np.array(d, dtype=float), int(h['NAXIS2']), float(h['CRPIX2'])))
+            except Exception as e:
+                got.append(('err:' + type(e).__name__ + ':' + str(e)[:60],))
+            flat = " ".join(" ".join(str(x) for x in dd) for dd in descr)
+            lines.append(f"fullfile {hdu_index} {cube} {i} {n} {flat}")
+        meta.append((dict(fullfile=True, seed=seed, hdus=[list(d) for d in descr], hdu_index=hdu_index, cube=cube, n=n), got, ref, crpix2))
+    outs = ctx.driver.batch(lines) if ctx.driver_ok else None
+    pos = 0
+    for case, got, ref, crpix2 in meta:
+        sig = dict(site='load_image_band', what='fullfile')
+        bad, cur = None, 0
+        for g in got:
+            if g[0] != 'ok':
+                bad = f"a valid band was rejected: {g[0]}"
+                break
+            _, d, nax2, c2 = g
+            if d.ndim != 2 or d.shape[1] != ref.shape[1] or nax2 != d.shape[0] or abs((crpix2 - c2) - cur) > 1e-9 \
+                    or not np.array_equal(d, ref[cur:cur + d.shape[0]]):
+                bad = (f"band starting at row {cur}: shape {d.shape}, NAXIS2 {nax2}, CRPIX2 {c2} (image {crpix2}); values are the "
+                       f"requested HDU's rows in physical units: {d.ndim == 2 and np.array_equal(d, ref[cur:cur + d.shape[0]])}")
+                break
+            cur += d.shape[0]
+        if bad is None and cur != ref.shape[0]:
+            bad = f"the bands hold {cur} rows, the image has {ref.shape[0]}"
+        if bad:
+            ctx.fail('spec', case, "file-level case: " + bad, dict(sig, variant='multi-hdu'))
+        for i, g in enumerate(got):
+            ml = outs[pos] if outs is not None else None
+            pos += 1
+            if ml is None or g[0] != 'ok':
+                if ml is not None and g[0] != 'ok' and ml.startswith('ok'):
+                    ctx.fail('corr', dict(case, i=i), f"implementation {g[0]}, assembled file model {ml[:60]}", sig)
+                continue
+            w = ml.split()
+            if w[0] != 'ok':
+                ctx.fail('corr', dict(case, i=i), f"implementation returned a band, assembled file model says {ml[:60]}", sig)
+                continue
+            _, d, nax2, c2 = g
+            body = ml.split(' ', 3)[3] if len(w) > 3 else ''
+            mrows = [[float(x) for x in r.split()] for r in body.split(';')] if body else []
+            if not (int(w[1]) == nax2 and int(w[2]) == int(round(c2)) and d.ndim == 2 and mrows == [list(map(float, r)) for r in d]):
+                ctx.fail('corr', dict(case, i=i), f"implementation NAXIS2 {nax2} CRPIX2 {c2} first row {d[:1].tolist()}, assembled file model {ml[:80]}", sig)
+        ctx.count('fullfile:hdu%d' % case['hdu_index'])
+        ctx.case(case, nontrivial_key=('fullfile', tuple(map(tuple, case['hdus'])), case['hdu_index'], case['n']) if case['n'] >= 2 else None,
+                 sample_every=37)
+
+
 CORPUS = [(1, 49, '2d'), (5, 64, '2d'), (47, 3, 'compressed'), (7, 7, '2d'), (9, 4, 'bscale'), (100, 49, '2d'),
           (12, 3, '2d'), (9, 3, '2d'), (12, 5, '2d'), (9, 2, '4d-ext'), (9, 2, '4d-extdecoy'), (7, 5, '3d-ext'),
           (6, 4, '2d-ext'), (8, 3, 'bscale-ext'), (7, 5, '3d'), (7, 9, '4d')]
@@ -469,6 +564,7 @@ def run(ctx):
     run_cases(ctx, cases)
     invalid_cases(ctx)
     full_cases(ctx, 120 if ctx.quick else 1500)
+    fullfile_cases(ctx, 60 if ctx.quick else 600)
     # debug slice: the same corpus with the root and 'Aegean' loggers at DEBUG must behave identically
     import logging
     root, aeg = logging.getLogger(), logging.getLogger('Aegean')
@@ -508,8 +604,10 @@ def search(ctx):
 def replay(ctx, rec):
     common.use_repo()
     c = rec['case']
-    if c.get('full'):
-        full_cases(ctx, 120)      # same seed, same stream: the failing case recurs
+    if c.get('fullfile'):
+        fullfile_cases(ctx, 600, seed=c.get('seed'))      # the recorded seed's own stream: the failing case recurs
+    elif c.get('full'):
+        full_cases(ctx, 1500, seed=c.get('seed'))
     elif 'band' in c:
         invalid_cases(ctx)
     else:
